@@ -451,6 +451,7 @@ type QueryInfo struct {
 	Result string  `json:"result"`
 	Secs   float64 `json:"secs"`
 	Nodes  int     `json:"nodes"`
+	By     string  `json:"decided_by,omitempty"`
 }
 
 type Violation struct {
@@ -550,7 +551,7 @@ func (e *Engine) discharge(res *UnitResult, unit, fn string, maxViol int) {
 	}
 	res.Obligations = len(e.obls)
 	logq := func(what string, q QueryResult) {
-		res.QueryLog = append(res.QueryLog, QueryInfo{what, q.Status, q.Secs, q.Nodes})
+		res.QueryLog = append(res.QueryLog, QueryInfo{what, q.Status, q.Secs, q.Nodes, q.By})
 	}
 	// 1. inconclusive conditions (unwinding assertions, unsupported constructs) must be unreachable
 	if len(incs) > 0 {
@@ -599,14 +600,22 @@ func (e *Engine) discharge(res *UnitResult, unit, fn string, maxViol int) {
 			out[gi] = gres{grp: g, term: b.OrN(ts)}
 		}
 		var wg sync.WaitGroup
+		var cmu sync.Mutex
 		for gi := range out {
 			wg.Add(1)
 			go func(gi int) {
 				defer wg.Done()
 				s2 := NewSolver(e.solver.timeoutMs)
 				s2.tag, s2.dumpDir = fmt.Sprintf("%s-g%d", e.solver.tag, gi), e.solver.dumpDir
+				s2.crossOn = e.solver.crossOn
 				defer s2.Close()
 				out[gi].q = s2.Check(b, []*Term{out[gi].term}, "obligations")
+				cmu.Lock()
+				e.solver.Cross = append(e.solver.Cross, s2.Cross...)
+				for k, v := range s2.Wins {
+					e.solver.Wins[k] += v
+				}
+				cmu.Unlock()
 			}(gi)
 		}
 		wg.Wait()
@@ -637,9 +646,14 @@ func (e *Engine) discharge(res *UnitResult, unit, fn string, maxViol int) {
 			break
 		}
 		if q.Status != "sat" {
-			// try one by one with the remaining budget
+			// try one by one with a bounded budget
 			var still []Obligation
-			for _, o := range remaining {
+			tStart := time.Now()
+			for oi, o := range remaining {
+				if len(still) >= 3 || time.Since(tStart) > 2*time.Duration(e.solver.timeoutMs)*time.Millisecond {
+					still = append(still, remaining[oi:]...)
+					break
+				}
 				q1 := e.solver.Check(b, []*Term{o.t}, "single")
 				logq("single obligation: "+o.msg, q1)
 				switch q1.Status {
